@@ -497,6 +497,10 @@ class Interp:
             return it.cls.layout
         if isinstance(it, tuple) and it and it[0] == "ZIP":
             return it[1]
+        if isinstance(it, tuple) and it and it[0] == "GEN":
+            return self.layout_of_iter(it[1])
+        if isinstance(it, UnordSeqV):
+            return Layout((("UNORD", it.role),))
         if isinstance(it, Join):
             ls = [self.layout_of_iter(a) for a in it.alts]
             if ls and all(l == ls[0] for l in ls):
@@ -656,6 +660,11 @@ class Interp:
             return SeqV(Layout((("DT",),)), "sym")
         if len(items) == 1 and isinstance(items[0], SeqV):
             return ("NESTED", items[0])
+        if len(items) == 1 and isinstance(items[0], UnordSeqV):
+            return ("NESTED", SeqV(Layout((("UNORD", items[0].role),)), items[0].elem))
+        if len(items) == 1 and isinstance(items[0], tuple) and items[0] and items[0][0] in ("KEYS", "VALUES", "ITEMS") \
+                and isinstance(items[0][1], MapV):
+            return ("NESTED", SeqV(Layout((("UNORD", items[0][1].keyrole),)), items[0][0].lower()))
         return ("PYLIST", tuple(items))
 
     def ev_Dict(self, n, env):
@@ -756,9 +765,13 @@ class Interp:
             if isinstance(op, ast.Mult):
                 return ScalV(s=sa * sb)
         if isinstance(a, ArrV) and not isinstance(b, ArrV) and isinstance(op, (ast.Mult, ast.Div, ast.Add, ast.Sub)):
-            return a
+            if to_scalar(b) is not None or isinstance(b, ScalV):
+                return ArrV(a.rows, a.cols, origin="scalar-op")    # array (op) scalar keeps the axes; the value changed
+            return ArrV(a.rows, a.cols, origin="unknown-op") if isinstance(b, Unknown) else Unknown("binop")
         if isinstance(b, ArrV) and not isinstance(a, ArrV) and isinstance(op, (ast.Mult, ast.Add, ast.Sub)):
-            return b
+            if to_scalar(a) is not None or isinstance(a, ScalV):
+                return ArrV(b.rows, b.cols, origin="scalar-op")
+            return ArrV(b.rows, b.cols, origin="unknown-op") if isinstance(a, Unknown) else Unknown("binop")
         return Unknown("binop")
 
     # -------- typed linear algebra
@@ -1084,6 +1097,8 @@ class Interp:
                 elems.append(a.elem)
             elif isinstance(a, NInst):
                 elems.append("value")
+            elif isinstance(a, tuple) and a and a[0] == "GEN" and isinstance(a[1], SeqV):
+                elems.append(a[1].elem)
             else:
                 elems.append("?")
         if all(l is not None for l in lays):
@@ -1115,6 +1130,14 @@ class Interp:
         if name in ("linalg.inv", "linalg.pinv"):
             if isinstance(a0, ArrV):
                 return ArrV(a0.cols, a0.rows, origin="inv", form=a0.form.inv() if a0.form is not None else None)
+        if name == "linalg.cholesky":
+            if isinstance(a0, ArrV):
+                return ArrV(a0.rows, a0.cols, origin="cholesky", form=MatForm.chol(a0.form) if a0.form is not None else None)
+        if name == "linalg.solve" and len(args) == 2:
+            a, b = args
+            if isinstance(a, ArrV) and isinstance(b, ArrV):
+                inv = ArrV(a.cols, a.rows, origin="inv", form=a.form.inv() if a.form is not None else None)
+                return self.binop(ast.MatMult(), inv, b, env, n)
         return Unknown("np." + name)
 
     def call_bound(self, base, attr, args, kwargs, env, n):
